@@ -1,7 +1,7 @@
 from pat import *
 from expr import fmt, walk
 from harness import Skip
-from guards import phi_defs, block_conditions, SWAP
+from guards import phi_defs, block_conditions, edge_conditions, dominates_accepts_deep, SWAP
 from rules.common import adapters_in, calls_named, req, strip, S
 
 INFO = {
@@ -93,7 +93,7 @@ def _caps(g, SIZE, SET):
         kinds = set(rd.kind for rd in e.leads)
         if op in ("Gt", "Ge") and kinds == {"err"}:
             thr = v if op == "Gt" else v - 1          # refuse when size > thr
-            conds = block_conditions(g, e.block)
+            conds = edge_conditions(g, e)
             shifted = any(cd[0] == "truth" and SET(cd[1]) and cd[2] is True for cd in conds)
             caps.append((thr, shifted, e))
     return caps
@@ -104,7 +104,7 @@ def ntt_capacity(ctx, rule):
     f = ctx.fn(rule, name="ntt_internal", id_re=r"^ntt::ntt_internal$")
     g = ctx.guards(f)
     caps = _caps(g, Local(3), Local(4))
-    plain = [c for c in caps if not c[1] and g.dominates_accepts(c[2])]
+    plain = [c for c in caps if not c[1] and dominates_accepts_deep(g, c[2])]
     shift = [c for c in caps if c[1]]
     # any other refusing edge that mentions size and is not one of the recognised forms makes the limit unknown
     known = set(id(c[2]) for c in caps)
@@ -142,7 +142,7 @@ def run_guards(ctx):
     caps = _caps(g, SIZE, SET)
     plain = [c for c in caps if not c[1]]
     shift = [c for c in caps if c[1]]
-    good = len(plain) == 1 and plain[0][0] == (1 << E) and g.dominates_accepts(plain[0][2])
+    good = len(plain) == 1 and plain[0][0] == (1 << E) and dominates_accepts_deep(g, plain[0][2])
     req(ctx, rule, K + "capacity-plain", good, "size > 2^%d -> Err(SizeTooLarge)   (E = min(MAX_ROOTS, NUM_ROOTS) = %d)" % (E, E),
         "the plain transform's size limit is not exactly 2^%d (found thresholds %s)" % (E, [c[0] for c in plain]), loc=f.loc)
     good = len(shift) == 1 and shift[0][0] == (1 << (E - 1))
@@ -153,12 +153,14 @@ def run_guards(ctx):
         e = shift[0][2]
         # the only way around the shifted check is the set_s == false edge
         bypass = lambda ed: ed.cond[0] == "truth" and SET(ed.cond[1]) and ed.cond[2] is False
-        req(ctx, rule, K + "capacity-shifted-dominates", g.dominates_accepts(e, ("err",), bypass), "checked on every path with set_s",
+        req(ctx, rule, K + "capacity-shifted-dominates", dominates_accepts_deep(g, e, ("err",), bypass), "checked on every path with set_s",
             "the shifted size limit can be bypassed while set_s is true", loc=f.loc)
     d = S(Try(Mentions(Call("log2", S(SIZE)))))
     ctx.require_guard(rule, f, "Ne", SIZE, Bin("Shl", Lit(1), Mentions(Call("log2"))), desc="size != 1 << log2(size) -> Err(SizeInvalid)")
     # error variants
-    names = sorted(set(m for rd in g.retdefs if rd.kind == "err" for m in ("OutputTooSmall", "SizeTooLarge", "SizeInvalid") if m in fmt(rd.expr)))
+    homes = {id(e.home): e.home for e in g.edges if getattr(e, "virtual", False)}
+    errdefs = [rd for rd in g.retdefs if rd.kind == "err"] + [rd for h in homes.values() for rd in ctx.guards(h).retdefs if rd.kind == "err"]
+    names = sorted(set(m for rd in errdefs for m in ("OutputTooSmall", "SizeTooLarge", "SizeInvalid") if m in fmt(rd.expr)))
     req(ctx, rule, K + "error-variants", names == ["OutputTooSmall", "SizeInvalid", "SizeTooLarge"], "errors: %s" % names, "unexpected error set %s" % names, loc=f.loc)
     # wrappers
     for nm, flag in (("ntt", 0), ("ntt_set_s", 1)):
